@@ -40,7 +40,9 @@ Full statement / proved / missing
                        Array[…], Hash[…], Collection[…], Tuple[…] (with and without a size), Struct[{…}] (every key form:
                        `'n'`, `Optional['n']`, `NotUndef['n']`, chosen by `StructType.Parameters` from the optionality of
                        the key and from whether the value type accepts `undef` — `Ty.acceptsUndef` —; any member name,
-                       duplicate names, the empty Struct) — arbitrarily nested, all Int64 bounds, all string contents.
+                       duplicate names, the empty Struct), Runtime['rt', 'name', Regexp[/…/]] (every form that prints
+                       invertibly), TypeReference['…'] (every string), the default Callable — arbitrarily nested, all
+                       Int64 bounds, all string contents.
                        The full statement `C05_type_roundtrip_full` (over the whole `Ty`) is false exactly at the
                        property's stated exception: `C05_exact_string_prints_plain`.
                        Float bounds: decimal float conversion is NOT modelled; the theorem assumes of it exactly `FloatIO`
@@ -48,7 +50,13 @@ Full statement / proved / missing
                        lexes as one float token and the reader oracle (`env.pf` = `strconv.ParseFloat`) maps it back to
                        `b`.  The lexing half is a theorem for `D+.D+` texts (`nextToken_simple_float`); the driver's
                        reader is the exact `parseFloat`, its formatter is the implementation's own text (op-line oracle).
-                       Missing (no theorem; direct predicate on the implementation only): Callable, Runtime, Init, Like, Object, TypeSet, aliases, TypeReference and the leaf
+                       Modelled and compared with the implementation on every run, but NOT yet inside the theorem:
+                       Callable with parameters (the creator `newCallableType3` + `tupleFromArgs(true, …)` and
+                       `CallableType.Parameters` are modelled in full, degenerate forms included; note that
+                       `CallableType.Equals` answers true for ANY two Callables — `Ty.eqGo` — so on the implementation the
+                       "equal type" half of the property is vacuous for Callable and only "prints the same text again" has
+                       content), unknown type names (they resolve to a TypeReference), the second spellings of core names.
+                       Missing (no theorem and no model; direct predicate on the implementation only): Runtime, Init, Like, Object, TypeSet, aliases, TypeReference and the leaf
                        types with parameters (known findings C05-leaf-type-params, -lazy-type, -nominal-type,
                        -callable-block).
 -/
@@ -207,6 +215,19 @@ example : ∀ t ∈ sampleFloats, parseType envF (syms (printTy t)) = some t :=
   fun t ht => C05_type_roundtrip_partial envF t (sampleFloats_wf t ht)
 example : printTy (.float 4609434218613702656 "1.50000".toList 4657715973212602368 "2500.00".toList) =
     "Float[1.50000, 2500.00]".toList := by decide +kernel
+
+/-- non-vacuity: Runtime in each of its printable forms, TypeReference (also the default's own string, and a string that
+    needs quoting), inside the old forms -/
+def sampleNominal : Ty :=
+  .tuple [.runtime "ruby".toList [] none, .runtime "ruby".toList ['n'] none, .runtime "go".toList [] none,
+          .runtime ['r'] ['n'] (some ['a', '/', 'b']), .runtime ['r'] ['n'] (some []), .runtime [] [] none,
+          .typeRef ['M', 'y', ':', ':', 'T'], .typeRef unresolvedRef, .typeRef ['\'', '\\'], .typeRef [],
+          .struct [(['c'], false, .callable none none none)]] none
+example : WFTy envEx sampleNominal := by
+  simp only [sampleNominal, WFTy, WFTys, WFMs, envEx]
+  decide
+example : parseType envEx (syms (printTy sampleNominal)) = some sampleNominal :=
+  C05_type_roundtrip_partial envEx sampleNominal (by simp only [sampleNominal, WFTy, WFTys, WFMs, envEx]; decide)
 
 /-- the four key forms of a Struct member: optional key + value accepting `undef` and required key + value refusing it
     print the bare name; the other two need `Optional['n']` / `NotUndef['n']` -/
